@@ -55,6 +55,9 @@ func Exec(req *kernel.Request) (resp *kernel.Response) {
 	scratch := filepath.Join(os.TempDir(), fmt.Sprintf("verif-eb-%d", os.Getpid()), fmt.Sprintf("p%d", pathSeq))
 	cl := newCluster(&cfg, scratch)
 	cl.trace = req.Trace
+	if cfg.Clone {
+		cl.setupClone()
+	}
 	defer func() {
 		if r := recover(); r != nil {
 			resp.Err = fmt.Sprintf("harness panic: %v\n%s", r, debug.Stack())
@@ -153,6 +156,7 @@ func (cl *cluster) step(ev string) {
 		cl.oracleVerify(cl.stepBefore, i, nil)
 	}
 	cl.stateOracles(v)
+	cl.cloneOracle()
 }
 
 func (cl *cluster) terr(ev string, err error) {
@@ -302,12 +306,12 @@ func (cl *cluster) apply(ev string) {
 			panic("RB needs real nodes")
 		}
 		cl.nAdds++
-		cl.startTask("rebuild", i, func() error {
+		cl.task = cl.startTask("rebuild", i, func() error {
 			return jsync.NewTask("http://" + ctlHost + ":9501").AddReplica(addr(i), rn.srv)
 		})
 		cl.observe("%s -> %s", ev, cl.taskDesc())
 	case "Step":
-		cl.stepTask()
+		cl.stepTask(cl.task)
 		cl.observe("Step -> %s", cl.taskDesc())
 		if cl.task.done && cl.trace && cl.task.err != nil {
 			cl.notes = append(cl.notes, fmt.Sprintf("    task error: %v", cl.task.err))
@@ -318,7 +322,10 @@ func (cl *cluster) apply(ev string) {
 	case "Kill":
 		// the joining replica's process dies at the gate its task is parked at and is started again
 		n := cl.task.node
-		cl.killTask()
+		cl.killTask(cl.task)
+		if cl.task.kind == "clone" {
+			// the clone's data connection dies with it: volume B's controller is told by its monitor
+		}
 		if rn, ok := cl.nodes[n].(*RealNode); ok {
 			rn.Crash()
 		}
@@ -335,7 +342,9 @@ func (cl *cluster) apply(ev string) {
 		cl.nodes[i].Restart()
 		cl.observe("%s", ev)
 	default:
-		panic("unknown event " + ev)
+		if !cl.applyClone(ev, f) {
+			panic("unknown event " + ev)
+		}
 	}
 	cl.failIO = map[int]bool{}
 	cl.failREST = map[string]bool{}
